@@ -102,6 +102,11 @@ func sameAddr(a, b ssa.Value) bool {
 			return x.Field == y.Field && (x.X == y.X || sameValue(x.X, y.X))
 		}
 	}
+	if x, ok := a.(*ssa.IndexAddr); ok {
+		if y, ok := b.(*ssa.IndexAddr); ok {
+			return (x.X == y.X || sameValue(x.X, y.X)) && (x.Index == y.Index || sameValue(x.Index, y.Index))
+		}
+	}
 	return false
 }
 
